@@ -32,6 +32,13 @@ def M(n, after_cmd=False):
     return s
 
 
+def BL(n):
+    s = SX.fresh(n)
+    for ch in s:
+        SX.assume(SX.ch_among(ch, ' \t\n'))
+    return s
+
+
 def body_of(bi, ac=False):
     """(source text, names of commands that must be findable inside); ac: the body directly follows \\begin{name}"""
     if bi == 0:
@@ -72,10 +79,15 @@ def body_of(bi, ac=False):
         return 'x\\text{a $' + M(1) + '$ b}' + M(1, True), ['text', '$']
     if bi == 18:
         return 'a\\\\\\$' + M(1) + '\\\\\\%' + M(1, True) + '\\\\\\{', []
+    if bi == 19:
+        # blank-separated unbalanced bracket behind a command that already has its brace arguments (seeded C12-r5-2)
+        return '\\frac{' + M(1) + '}{2}' + BL(1) + '[' + M(1), ['frac']
+    if bi == 20:
+        return '\\c{' + M(1) + '}' + BL(1) + '[0,' + M(1) + ')', ['c']
     raise AssertionError(bi)
 
 
-NBODIES = 19
+NBODIES = 21
 
 
 def find_math(soup, cls, name):
